@@ -1,5 +1,5 @@
 """C09 — a fog-guided walk finds everything, even while the trie changes (DESIGN §5 C09)."""
-from ..engine import explore, unjson, HarnessError
+from ..engine import explore, replay_doc
 from ..report import Report
 from ..walksys import WalkSys
 
@@ -45,28 +45,9 @@ def run(tier, seed):
 
 
 def replay(doc):
-    outcomes = []
-    for _ in range(2):
-        kw = dict(doc["system"]["kwargs"])
-        for k in ("values", "mut_values"):
-            kw[k] = tuple(kw[k])
-        if isinstance(kw.get("init"), list):
-            kw["init"] = tuple(kw["init"])
-        sysm = WalkSys(**kw)
-        hist = [unjson(e) for e in doc["history"]]
-        snap, model = sysm.initial()[hist[0][1]]
-        found = []
-        for ev in hist[1:]:
-            found += [v["check"] for v in sysm.state_check(snap, model)]
-            st = sysm.step(snap, model, ev)
-            found += [v["check"] for v in st.viols]
-            if st.snap is None:
-                break
-            snap, model = st.snap, st.model
-        else:
-            found += [v["check"] for v in sysm.state_check(snap, model)]
-        outcomes.append(found)
-    if outcomes[0] != outcomes[1]:
-        raise HarnessError("replay is not deterministic")
-    print("replayed history; failing checks:", outcomes[0])
-    return doc["check"] in outcomes[0]
+    kw = dict(doc["system"]["kwargs"])
+    for k in ("values", "mut_values"):
+        kw[k] = tuple(kw[k])
+    if isinstance(kw.get("init"), list):
+        kw["init"] = tuple(kw["init"])
+    return replay_doc(lambda: WalkSys(**kw), doc)
